@@ -156,6 +156,16 @@ ExpIncs(G, f, i, open, once, acc) ==
 
 Expand(G, root) == LET r == ExpEnter(G, root, {}, {}) IN [ok |-> r.ok, out |-> r.out]
 
+\* several root files (named on the command line, assembled in that order): each starts with an empty
+\* inclusion stack, but what was included once-only stays included for the roots that follow
+RECURSIVE ExpRoots(_, _, _, _, _)
+ExpRoots(G, roots, k, once, acc) ==
+    IF k > Len(roots) THEN [ok |-> TRUE, out |-> acc]
+    ELSE LET r == ExpEnter(G, roots[k], {}, once) IN
+         IF ~r.ok THEN [ok |-> FALSE, out |-> <<>>]
+         ELSE ExpRoots(G, roots, k + 1, r.once, acc \o r.out)
+ExpandMany(G, roots) == ExpRoots(G, roots, 1, {}, <<>>)
+
 \* ---- the machine (parse_and_resolve_includes) -----------------------------
 \* ms: [frames : sequence of [file, pos] -- the recursion of
 \*           parse_and_resolve_includes, pos = includes already handled;
